@@ -158,6 +158,24 @@ func init() {
 					g.emit("bwfirstdiff %d %s %s %d %d", n, showBytes(a), showBytes(b), from, end)
 				}
 			}
+			// `end` far beyond either string, at and around every power of two up to the largest int (a window bound is
+			// compared, never multiplied, by the property: lim = min(end, words(a), words(b)))
+			for rep := 0; rep < 2; rep++ {
+				a := g.bytes(3+g.intn(12), 3)
+				b := append([]byte(nil), a...)
+				if rep == 1 {
+					b[len(b)-1] ^= 4
+				}
+				for k := 8; k <= 63; k++ {
+					for _, d := range []int64{-1, 0, 1, 2, 3, 5, 8, int64(g.intn(64))} {
+						end := int64(1)<<uint(k) + d
+						if k == 63 {
+							end = int64(^uint64(0)>>1) - (d + 1)
+						}
+						g.emit("bwfirstdiff %d %s %s %d %d", n, showBytes(a), showBytes(b), g.intn(3), end)
+					}
+				}
+			}
 			// ToStr: output lengths on and around multiples of 1024 bytes, incomplete last byte
 			for _, nb := range []int{1023, 1024, 1025, 2048} {
 				per := 8 / n
@@ -325,6 +343,20 @@ func init() {
 		g.emit("bsnew x 0 0")
 		g.emit("bscmp x 0 0 x00 0 0")
 		g.emit("bscmpupto x6162 x 0 0")
+		// the plain bytes are a prefix of the encoded bytes (the executor then also passes them as a view of b's memory)
+		for rep := 0; rep < g.n(60, 400); rep++ {
+			l := 2 + g.intn(40)
+			s := g.bytes(l, 3*(rep%2))
+			to := 8*l - []int{0, 3, 8, 13}[g.intn(4)]
+			if to < 0 {
+				to = 0
+			}
+			for _, k := range []int{1, l / 2, l - 2, l - 1, to / 8} {
+				if k >= 0 && k <= to/8 {
+					g.emit("bscmpupto %s %s 0 %d", showBytes(s[:k]), showBytes(s), to)
+				}
+			}
+		}
 	}
 
 	gens["C16"] = func(g *G) {
